@@ -373,3 +373,16 @@ package clickhouse_planner
 //@   modifies allocated
 //@   at regexAST).collectGroupNames$ unnamed-group-takes-its-slot-first: len(arg0) == old(len(init)) + 1 && arg0[old(len(init))] == ""
 //@   ensures only-appends: len(result) >= old(len(init))
+
+// step > range: the range windows of one step are collapsed onto the start of THEIR
+// STEP - the bucket expression divides and multiplies by the step of the request (not
+// by the range, which would leave every window on its own timestamp) - and a request
+// whose step is not larger than the range passes through unchanged.
+//@ func hasColumn
+//@   modifies nothing
+//@ func (*StepFixPlanner).Process [C08]
+//@   flag checks=-assert,-index
+//@   at sql_select.NewSimpleCol$ windows-collapse-onto-the-step-start: arg1 == "timestamp_ns" ==> arg0 == "intDiv(pre_step_fix.timestamp_ns, " + fmtd(ctx.Step.Nanoseconds()) + ") * " + fmtd(ctx.Step.Nanoseconds())
+//@   at sql_select.NewSimpleCol$ first-window-of-the-step-wins: arg1 == "value" ==> arg0 == "argMin(pre_step_fix.value, pre_step_fix.timestamp_ns)"
+//@   ensures fix-only-when-step-exceeds-range: result1 == nil && s.Duration.Nanoseconds() >= ctx.Step.Nanoseconds() ==> result0 == main
+//@   at sql_select.NewWith$ fix-only-when-step-exceeds-range: s.Duration.Nanoseconds() < ctx.Step.Nanoseconds()
